@@ -47,7 +47,7 @@ def main(argv, args):
         mp = os.path.join(d, "meta.json")
         if os.path.exists(mp) and os.path.exists(os.path.join(d, "patch.diff")):
             meta = json.load(open(mp))
-            if meta.get("confirmed"):
+            if meta.get("confirmed") and not meta.get("void"):
                 jobs.append((os.path.basename(d), meta["property"], os.path.join(d, "patch.diff")))
                 if meta.get("known_blind_spot"):
                     blind.add(os.path.basename(d))
